@@ -374,7 +374,7 @@ def initialize():
             f_type="integer(C_SHORT)",
             f_kind="C_SHORT",
             f_module=dict(iso_c_binding=["C_SHORT"]),
-            PY_format="h",
+            PY_format="H",
             PY_ctor="PyInt_FromLong({ctor_expr})",
             PY_get="PyInt_AsLong({py_var})",
             PYN_typenum="NPY_SHORT",
@@ -392,7 +392,7 @@ def initialize():
             f_type="integer(C_INT)",
             f_kind="C_INT",
             f_module=dict(iso_c_binding=["C_INT"]),
-            PY_format="i",
+            PY_format="I",
             PY_ctor="PyInt_FromLong({ctor_expr})",
             PY_get="PyInt_AsLong({py_var})",
             PYN_typenum="NPY_INT",
@@ -410,7 +410,7 @@ def initialize():
             f_type="integer(C_LONG)",
             f_kind="C_LONG",
             f_module=dict(iso_c_binding=["C_LONG"]),
-            PY_format="l",
+            PY_format="k",
             PY_ctor="PyInt_FromLong({ctor_expr})",
             PY_get="PyInt_AsLong({py_var})",
             PYN_typenum="NPY_LONG",
@@ -428,7 +428,7 @@ def initialize():
             f_type="integer(C_LONG_LONG)",
             f_kind="C_LONG_LONG",
             f_module=dict(iso_c_binding=["C_LONG_LONG"]),
-            PY_format="L",
+            PY_format="K",
             # #- PY_ctor='PyInt_FromLong({ctor_expr})',
             PYN_typenum="NPY_LONGLONG",
             LUA_type="LUA_TNUMBER",
@@ -587,7 +587,7 @@ def initialize():
             f_type="integer(C_INT32_T)",
             f_kind="C_INT32_T",
             f_module=dict(iso_c_binding=["C_INT32_T"]),
-            PY_format="i",
+            PY_format="I",
             PY_ctor="PyInt_FromLong({ctor_expr})",
             PY_get="PyInt_AsLong({py_var})",
             PYN_typenum="NPY_UINT32",
@@ -607,7 +607,7 @@ def initialize():
             f_type="integer(C_INT64_T)",
             f_kind="C_INT64_T",
             f_module=dict(iso_c_binding=["C_INT64_T"]),
-            PY_format="L",
+            PY_format="K",
             PY_ctor="PyInt_FromLong({ctor_expr})",
             PY_get="PyInt_AsLong({py_var})",
             PYN_typenum="NPY_UINT64",
